@@ -31,6 +31,11 @@ SCHED2_K = 120         # two-preemption schedules: first preemption at points < 
 SCHED2_J = 120
 MISC_CAP = 6000
 ENTRIES = ['conelp', 'lp', 'socp', 'sdp', 'coneqp', 'qp', 'cpl', 'cp', 'gp', 'opsolve']
+# the same entry points with an external back-end (only the Python pre/post-processing is from the working tree): history
+# part only - the conelp options do not apply to them, the isolation clauses (inputs, dictionaries, repeatability) do
+ENTRIES_EXT = ['lp.glpk', 'sdp.dsdp', 'opsolve.glpk']
+# cone LPs whose least-squares start is already optimal (zero objective): conelp leaves through its iteration-0 return
+SHORTCUT = ['conelp.sc', 'lp.sc', 'socp.sc', 'sdp.sc']
 
 
 # ------------------------------------------------------------------------------------------------ fixed problems
@@ -39,6 +44,12 @@ def _problem(entry, which=0):
     from cvxopt import matrix, solvers, modeling
     from mc import cvx
     v = which
+    xkw = {}
+    if '.' in entry:
+        entry, be = entry.split('.')
+        if be == 'sc':
+            return _shortcut_problem(entry)
+        xkw = {'solver': be}
     if entry in ('conelp', 'lp', 'socp', 'sdp'):
         d = {'conelp': {'l': 1, 'q': [2], 's': [2]}, 'lp': {'l': 3, 'q': [], 's': []}, 'socp': {'l': 1, 'q': [3], 's': []},
              'sdp': {'l': 1, 'q': [], 's': [2]}}[entry]
@@ -50,13 +61,13 @@ def _problem(entry, which=0):
             return (lambda o: solvers.conelp(*args, **({'options': o} if o is not None else {}))), args
         if entry == 'lp':
             args = [a['c'], a['G'], a['h'], a['A'], a['b']]
-            return (lambda o: solvers.lp(*args, **({'options': o} if o is not None else {}))), args
+            return (lambda o: solvers.lp(*args, **dict(xkw, **({'options': o} if o is not None else {})))), args
         G, h = a['G'], a['h']
         if entry == 'socp':
             args = [a['c'], G[:ml, :], h[:ml], [G[ml:, :]], [h[ml:]], a['A'], a['b']]
             return (lambda o: solvers.socp(*args, **({'options': o} if o is not None else {}))), args
         args = [a['c'], G[:ml, :], h[:ml], [G[ml:, :]], [matrix(list(h[ml:]), (2, 2))]]
-        return (lambda o: solvers.sdp(*args, **({'options': o} if o is not None else {}))), args
+        return (lambda o: solvers.sdp(*args, **dict(xkw, **({'options': o} if o is not None else {})))), args
     if entry in ('coneqp', 'qp'):
         d = {'l': 1, 'q': [2], 's': [2]} if entry == 'coneqp' else {'l': 3, 'q': [], 's': []}
         inst = next(i for i in (qpsolve.planted_qp(d, 2, 1, v + k) for k in range(8)) if i is not None)
@@ -97,10 +108,34 @@ def _problem(entry, which=0):
     prob = modeling.op(modeling.max(x, modeling.sum(y)) + x, cons)
 
     def call(o):
-        prob.solve(**({'options': o} if o is not None else {}))
+        prob.solve(**dict(xkw, **({'options': o} if o is not None else {})))
         return {'status': prob.status, 'x': x.value, 'y': y.value, 'objective': prob.objective.value(),
                 'multipliers': [c.multiplier.value for c in cons]}
     return call, [A]
+
+
+def _shortcut_problem(entry):
+    """feasibility problems with zero objective: the default starting point (least-squares s, z = 0 shifted into the cone)
+    is optimal, so conelp returns from its iteration-0 shortcut; option validation must not depend on that."""
+    from cvxopt import matrix, solvers
+    c = matrix([0.0, 0.0])
+    if entry in ('conelp', 'lp'):
+        G = matrix([[1.0, -1.0, 0.0, 0.0], [0.0, 0.0, 1.0, -1.0]])
+        h = matrix([1.0, 1.0, 1.0, 1.0])
+        if entry == 'lp':
+            args = [c, G, h]
+            return (lambda o: solvers.lp(*args, **({'options': o} if o is not None else {}))), args
+        args = [c, G, h, {'l': 4, 'q': [], 's': []}]
+        return (lambda o: solvers.conelp(*args, **({'options': o} if o is not None else {}))), args
+    if entry == 'socp':
+        Gq = [matrix([[0.0, -1.0, 0.0], [0.0, 0.0, -1.0]])]
+        hq = [matrix([1.0, 0.0, 0.0])]
+        args = [c, None, None, Gq, hq]
+        return (lambda o: solvers.socp(c, Gq=Gq, hq=hq, **({'options': o} if o is not None else {}))), args
+    Gs = [matrix([[-1.0, 0.0, 0.0, -1.0], [0.0, -1.0, -1.0, 0.0]])]
+    hs = [matrix([[2.0, 0.0], [0.0, 2.0]])]
+    args = [c, Gs, hs]
+    return (lambda o: solvers.sdp(c, Gs=Gs, hs=hs, **({'options': o} if o is not None else {}))), args
 
 
 def _image(res):
@@ -133,8 +168,12 @@ def cases(tier, seed, flavour):
         yield {'part': 'options', 'entry': e, 'seed': seed}
     for d in ({'l': 3, 'q': [], 's': []}, {'l': 1, 'q': [3], 's': []}, {'l': 1, 'q': [], 's': [2]}, {'l': 1, 'q': [2], 's': [2]}):
         yield {'part': 'tolerances', 'dims': d, 'seed': seed}
+    for e in SHORTCUT:
+        yield {'part': 'options', 'entry': e, 'seed': seed}
     for e in ENTRIES:
         yield {'part': 'hist', 'entry': e, 'depth': 3 if tier == 'quick' else 4, 'seed': seed}
+    for e in ENTRIES_EXT:
+        yield {'part': 'hist', 'entry': e, 'depth': 2 if tier == 'quick' else 3, 'seed': seed}
     for tag, cone in (('ball2.0', None), ('ballo2.0', None), ('ballo1.1', None), ('quad2.0', {'l': 1, 'q': [2], 's': [2]}),
                       ('acent2.0.015625', {'l': 1, 'q': [2], 's': [2]}), ('logdom.0.1', None), ('expc2', None), ('lse.0.cp', None)):
         yield {'part': 'startpoint', 'tag': tag, 'cone': cone, 'seed': seed}
@@ -220,6 +259,19 @@ def run_options(case):
                     viol.append({'key': 'C09:options:invalid-value-accepted:%s@%s' % (opt, e),
                                  'msg': '%s(options={%r: %r}) should raise ValueError, got %s' % (e, opt, val, _brief(r)),
                                  'sub': {'entry': e, 'option': opt, 'value': repr(val)}})
+        # progress output is only output: the result with show_progress True (per call, and by default: no entry at all)
+        # equals the result with show_progress False
+        fresh_globals()
+        quiet = _image(_do(call, {'show_progress': False}))
+        loud = _do(call, {'show_progress': True})
+        solvers.options.clear()
+        dflt = _do(call, None)
+        n += 3
+        nt += 2
+        for how, r in (('show_progress=True', loud), ('no show_progress entry anywhere', dflt)):
+            if _image(r) != quiet:
+                viol.append({'key': 'C09:options:show_progress-changes-result@%s' % e,
+                             'msg': '%s with %s gives %s, with show_progress False %s' % (e, how, _brief(r), 'another result')})
         # an EMPTY per-call dictionary is still a per-call dictionary: the globals must not leak in
         solvers.options.clear()
         ref_empty = _image(_do(call, {}))
